@@ -143,10 +143,27 @@ def apply_convert(mod, how, torch):
         return mod.to(torch.float64)
     if how == "to32":
         return mod.to(dtype=torch.float32)
+    if how in ("double_overwrite", "float_overwrite"):
+        # torch's opt-in conversion semantics: install NEW Parameter objects
+        # instead of swapping .data of the existing ones
+        import torch.__future__ as fut
+        old = fut.get_overwrite_module_params_on_conversion()
+        fut.set_overwrite_module_params_on_conversion(True)
+        try:
+            return mod.double() if how == "double_overwrite" else mod.float()
+        finally:
+            fut.set_overwrite_module_params_on_conversion(old)
+    if how == "reload_assign":
+        # checkpoint reload that replaces the parameter/buffer objects
+        sd = {k: v.detach().clone() for k, v in mod.state_dict().items()}
+        mod.load_state_dict(sd, assign=True)
+        return mod
     raise ValueError(how)
 
 
-CONVERT_TARGET = {"double": "float64", "to64": "float64", "float": "float32", "to32": "float32"}
+CONVERT_TARGET = {"double": "float64", "to64": "float64", "float": "float32", "to32": "float32",
+                  "double_overwrite": "float64", "float_overwrite": "float32",
+                  "reload_assign": None}
 
 
 def module_state_snap(mod):
@@ -775,6 +792,36 @@ class World:
             rec["value"] = val
         if self.profile == "C18":
             tables.check_load(self, cl, rec, op, status, val)
+
+    def op_extra(self, cl, op, rec):
+        """Call a public function of the loader module that is NOT one of the
+        known entry points (a change under test may add some) with a table name
+        and its boolean keyword defaults flipped per op["flip"].  The outcome is
+        not judged; what it does to later loads is (T1/T3/T5)."""
+        import inspect
+        coeffs = self.L.coeffs
+        known = {"biort", "level1", "qshift", "pywt_coeffs", "load", "resource_stream"}
+        funcs = sorted(n for n, f in vars(coeffs).items()
+                       if inspect.isfunction(f) and f.__module__ == coeffs.__name__
+                       and not n.startswith("_") and n not in known)
+        if not funcs:
+            return self._skip(rec, "no-extra-api")
+        fn = getattr(coeffs, funcs[op["index"] % len(funcs)])
+        kwargs = {}
+        try:
+            params = list(inspect.signature(fn).parameters.values())
+        except (TypeError, ValueError):
+            params = []
+        bit = 0
+        for prm in params[1:]:
+            if isinstance(prm.default, bool):
+                if (op["flip"] >> bit) & 1:
+                    kwargs[prm.name] = not prm.default
+                bit += 1
+        status, val = cl.guarded(lambda: fn(op["name"], **kwargs))
+        self._finish(cl, rec, status, val)
+        self.probe("extra_api_calls")
+        rec["unjudged"] = True
 
     def op_func(self, cl, op, rec):
         torch = self.L.torch
